@@ -153,6 +153,7 @@ type vfC16Scenario struct {
 	NAddr int         `json:"naddrs"`
 	Filt  []string    `json:"filt"`
 	C0    string      `json:"c0peer"` // broadcast_address of the control node: a0 (default) or b0
+	Pol   string      `json:"policy"` // rr (default) | ta-rr | ta-dc: token aware over round robin / DC aware, session keyspace "ks"
 	Init  []vfC16Row  `json:"init"`
 	Exp0  *vfC16Exp   `json:"exp0,omitempty"`
 	Steps []vfC16Step `json:"steps"`
@@ -170,6 +171,7 @@ type vfC16Rec struct {
 	Addr      string      `json:"addr"`
 	Filt      []string    `json:"filt"`
 	C0        string      `json:"c0peer"`
+	Policy    string      `json:"policy"`
 	Hosts     []vfC16Host `json:"hosts"`
 	ByID      []vfC16HA   `json:"byid"`
 	ByAddr    []vfC16PA   `json:"byaddr"`
@@ -203,8 +205,9 @@ type vfC16World struct {
 	tmu       sync.Mutex
 	truth     []vfC16Row // what the control node reports in system.peers
 	fail      string     // none | local | peers
-	debounced int32      // direct mode: a debounced ring refresh has been requested
-	rr        *roundRobinHostPolicy
+	schema    string     // ok | error | norows: how the keyspace metadata query is answered
+	pol       HostSelectionPolicy
+	debounced int32 // direct mode: a debounced ring refresh has been requested
 	spawns    int64 // successful pool connects (each one starts a handleNodeConnected goroutine)
 	hostUps   int64 // HostUp calls that reached the policy (end of handleNodeConnected)
 	fills     int64 // pool fills under way (hooks p_fill_begin / p_fill_end)
@@ -300,6 +303,33 @@ var vfC16PeerCols = []vfCol{
 	{"release_version", vfTVarchar}, {"rpc_address", vfTInet}, {"preferred_ip", vfTInet}, {"tokens", vfTSet}, {"schema_version", vfTUUID},
 }
 
+// Host iK owns exactly the token of the routing key "key-iK" (computed with the partitioner the
+// session uses - set-up, not an expectation): a query routed with that key has iK as its first
+// replica, so the routed queries cover every host's range.
+func vfC16Key(id string) []byte { return []byte("key-" + id) }
+
+func vfC16Token(id string) string {
+	return murmur3Partitioner{}.Hash(vfC16Key(id)).String()
+}
+
+// vfC16KeyspaceBody: RESULT/Rows of "SELECT durable_writes, replication FROM system_schema.keyspaces
+// WHERE keyspace_name = ?" (boolean, map<varchar, varchar>); nil = no such keyspace.
+func vfC16KeyspaceBody(repl [][2]string) []byte {
+	w := &vfW{}
+	w.Int(2).Int(0x01).Int(2).String("system_schema").String("keyspaces")
+	w.String("durable_writes").Short(vfTBoolean)
+	w.String("replication").Short(0x0021).Short(vfTVarchar).Short(vfTVarchar)
+	if repl == nil {
+		return w.Int(0).b
+	}
+	m := &vfW{}
+	m.Int(int32(len(repl)))
+	for _, kv := range repl {
+		m.Bytes([]byte(kv[0])).Bytes([]byte(kv[1]))
+	}
+	return w.Int(1).Bytes([]byte{1}).Bytes(m.b).b
+}
+
 func vfC16Num(id string) int {
 	n := 0
 	fmt.Sscanf(strings.TrimPrefix(id, "i"), "%d", &n)
@@ -318,6 +348,52 @@ func (w *vfC16World) setFail(f string) {
 	w.tmu.Unlock()
 }
 
+// schemaTables: the driver reads the schema tables with prepared statements ("... WHERE
+// keyspace_name = ?"): PREPARE is answered with varchar bind markers, EXECUTE of the keyspaces
+// query with the replication of keyspace "ks" - or an error / no row while the keyspace metadata
+// is unavailable; the other schema tables are empty (default: void).
+func (w *vfC16World) schemaTables(nc *vfNodeConn, f *vfFrame, q *vfRequest) bool {
+	isSchema := func(s string) bool {
+		l := strings.ToLower(s)
+		return strings.Contains(l, "system_schema.") || strings.Contains(l, "system.schema_")
+	}
+	if f.Op == vfOpPrepare {
+		if !isSchema(q.Stmt) {
+			return false
+		}
+		b := &vfW{}
+		b.Int(4).ShortBytes([]byte("id:" + q.Stmt))
+		n := strings.Count(q.Stmt, "?")
+		b.Int(0x01).Int(int32(n))
+		if f.Version >= 4 {
+			b.Int(0)
+		}
+		b.String("system_schema").String("t")
+		for i := 0; i < n; i++ {
+			b.String(fmt.Sprintf("p%d", i)).Short(vfTVarchar)
+		}
+		b.Int(0x01).Int(0).String("system_schema").String("t")
+		nc.Reply(f, vfOpResult, b.b)
+		return true
+	}
+	id := strings.ToLower(string(q.PreparedID))
+	if !strings.Contains(id, "system_schema.keyspaces") && !strings.Contains(id, "system.schema_keyspaces") {
+		return false
+	}
+	w.tmu.Lock()
+	mode := w.schema
+	w.tmu.Unlock()
+	switch mode {
+	case "error":
+		nc.Reply(f, vfOpError, vfErrorBody(0x0000, "vf: schema tables unavailable", nil))
+	case "norows":
+		nc.Reply(f, vfOpResult, vfC16KeyspaceBody(nil))
+	default:
+		nc.Reply(f, vfOpResult, vfC16KeyspaceBody([][2]string{{"class", "org.apache.cassandra.locator.SimpleStrategy"}, {"replication_factor", "2"}}))
+	}
+	return true
+}
+
 // systemTables answers the control node's system.local / system.peers queries.
 func (w *vfC16World) systemTables(nc *vfNodeConn, f *vfFrame, stmt string) bool {
 	low := strings.ToLower(stmt)
@@ -327,6 +403,13 @@ func (w *vfC16World) systemTables(nc *vfNodeConn, f *vfFrame, stmt string) bool 
 	inet := func(a string) []byte { return vfCellInet(net.ParseIP(vfC16IP(a))) }
 	const part, ver = "org.apache.cassandra.dht.Murmur3Partitioner", "3.11.4"
 	switch {
+	case strings.Contains(low, "schema_version from system.local"):
+		// second half of the driver's wait for schema agreement (after a schema event); the
+		// system.peers query just before it was not a ring refresh
+		atomic.AddInt64(&w.peersQ, -1)
+		nc.Reply(f, vfOpResult, vfRowsBody(f.Version, "system", "local", []vfCol{{"schema_version", vfTUUID}},
+			[][][]byte{{vfCellUUID(vfSchemaVersion)}}, nil, false))
+		return true
 	case strings.Contains(low, "system.local"):
 		if fail == "local" {
 			nc.Reply(f, vfOpError, vfErrorBody(0x0000, "vf: local unavailable", nil))
@@ -338,7 +421,7 @@ func (w *vfC16World) systemTables(nc *vfNodeConn, f *vfFrame, stmt string) bool 
 		}
 		row := [][]byte{vfCellText("local"), vfCellText("vf"), vfCellText("dc1"), vfCellText("r1"),
 			vfCellUUID(vfMustUUID(vfC16UUID("i0"))), vfCellText(ver), vfCellText(part),
-			inet("a0"), inet(c0), inet("l0"), vfSetCell(f.Version, []string{"1000"}), vfCellUUID(vfSchemaVersion)}
+			inet("a0"), inet(c0), inet("l0"), vfSetCell(f.Version, []string{vfC16Token("i0")}), vfCellUUID(vfSchemaVersion)}
 		nc.Reply(f, vfOpResult, vfRowsBody(f.Version, "system", "local", vfC16LocalCols, [][][]byte{row}, nil, false))
 		return true
 	case strings.Contains(low, "system.peers_v2"):
@@ -357,7 +440,7 @@ func (w *vfC16World) systemTables(nc *vfNodeConn, f *vfFrame, stmt string) bool 
 			}
 			n := vfC16Num(r.ID)
 			row := [][]byte{inet(peer), vfCellText("dc1"), vfCellText("r1"), vfCellUUID(vfMustUUID(vfC16UUID(r.ID))),
-				vfCellText(ver), inet(r.Addr), inet(fmt.Sprintf("c%d", n)), vfSetCell(f.Version, []string{fmt.Sprintf("%d", (n+1)*1000)}), vfCellUUID(vfSchemaVersion)}
+				vfCellText(ver), inet(r.Addr), inet(fmt.Sprintf("c%d", n)), vfSetCell(f.Version, []string{vfC16Token(r.ID)}), vfCellUUID(vfSchemaVersion)}
 			switch r.Inv {
 			case "nodc":
 				row[1] = nil
@@ -398,6 +481,9 @@ func vfC16NewWorld(sc *vfC16Scenario) (*vfC16World, error) {
 			}
 		}
 		n.Handler = func(nc *vfNodeConn, f *vfFrame, q *vfRequest) bool {
+			if a == "a0" && q != nil && (f.Op == vfOpPrepare || f.Op == vfOpExecute) {
+				return w.schemaTables(nc, f, q)
+			}
 			if f.Op != vfOpQuery || q == nil {
 				return false
 			}
@@ -420,8 +506,19 @@ func vfC16NewWorld(sc *vfC16Scenario) (*vfC16World, error) {
 	w.dialer = vfNewDialer(nodes...)
 	cfg := vfClusterConfig(w.dialer, 4, vfC16IP("a0"))
 	vfC16InstallScope()
-	w.rr = RoundRobinHostPolicy().(*roundRobinHostPolicy)
-	cfg.PoolConfig.HostSelectionPolicy = &vfC16Policy{HostSelectionPolicy: w.rr, w: w}
+	var inner HostSelectionPolicy
+	switch sc.Pol {
+	case "ta-rr":
+		inner = TokenAwareHostPolicy(RoundRobinHostPolicy())
+		cfg.Keyspace = "ks"
+	case "ta-dc":
+		inner = TokenAwareHostPolicy(DCAwareRoundRobinPolicy("dc1"))
+		cfg.Keyspace = "ks"
+	default:
+		inner = RoundRobinHostPolicy()
+	}
+	w.pol = &vfC16Policy{HostSelectionPolicy: inner, w: w}
+	cfg.PoolConfig.HostSelectionPolicy = w.pol
 	cfg.ReconnectionPolicy = &ConstantReconnectionPolicy{MaxRetries: 1, Interval: 0}
 	cfg.Timeout = 5 * time.Second // a slow machine must not look like a failing refresh
 	cfg.ConnectTimeout = 5 * time.Second
@@ -509,18 +606,44 @@ func (w *vfC16World) project(withQueries bool) *vfC16Rec {
 	}
 	s.pool.mu.RUnlock()
 	sort.Slice(r.Pool, func(i, j int) bool { return r.Pool[i].ID < r.Pool[j].ID })
-	if rr := w.rr; rr != nil {
-		for _, h := range rr.hosts.get() {
-			r.Pol = append(r.Pol, vfC16PA{ID: nm.I(h.HostID()), Addr: nm.A(h.ConnectAddress())})
+	// the hosts the selection policy offers: every host of the query plans (Pick) of a query
+	// without routing key and of one query routed into every host's token range
+	offered := map[vfC16PA]bool{}
+	plan := func(q ExecutableQuery) {
+		next := w.pol.Pick(q)
+		for i := 0; i < 64; i++ {
+			sh := next()
+			if sh == nil || sh.Info() == nil {
+				break
+			}
+			offered[vfC16PA{ID: nm.I(sh.Info().HostID()), Addr: nm.A(sh.Info().ConnectAddress())}] = true
 		}
 	}
-	sort.Slice(r.Pol, func(i, j int) bool { return r.Pol[i].ID < r.Pol[j].ID })
+	plan(nil)
+	if w.sc.Pol != "rr" {
+		for _, i := range nm.ids {
+			q := w.s.Query("LIST vf").RoutingKey(vfC16Key(i))
+			plan(q)
+			q.Release()
+		}
+	}
+	for pa := range offered {
+		r.Pol = append(r.Pol, pa)
+	}
+	sort.Slice(r.Pol, func(i, j int) bool {
+		return r.Pol[i].ID < r.Pol[j].ID || (r.Pol[i].ID == r.Pol[j].ID && r.Pol[i].Addr < r.Pol[j].Addr)
+	})
 	if withQueries {
 		w.served = sync.Map{}
 		nq := 2*len(r.Pol) + 2
 		for q := 0; q < nq; q++ {
 			// not a statement the driver prepares: one QUERY frame on the chosen host
-			w.s.Query(fmt.Sprintf("LIST vf%d", atomic.AddInt64(&w.qseq, 1))).Exec()
+			w.s.Query("LIST vf").Exec()
+		}
+		if w.sc.Pol != "rr" {
+			for _, i := range nm.ids {
+				w.s.Query("LIST vf").RoutingKey(vfC16Key(i)).Exec()
+			}
 		}
 		w.served.Range(func(k, v interface{}) bool {
 			r.Served = append(r.Served, k.(string))
@@ -819,6 +942,22 @@ func (w *vfC16World) exec(st *vfC16Step) (errs string, pan string) {
 				}
 			}
 		}
+	case "schema":
+		// the keyspace metadata becomes (un)available (st.Addr: ok | error | norows) and the cluster
+		// announces a change of the session keyspace, which makes the driver drop what it cached
+		w.setTruth(st.Rows)
+		w.tmu.Lock()
+		w.schema = st.Addr
+		w.tmu.Unlock()
+		if w.sc.Mode == "wire" {
+			nc := w.controlNodeConn()
+			if nc == nil {
+				return "nocontrol", ""
+			}
+			nc.Event((&vfW{}).String("SCHEMA_CHANGE").String("UPDATED").String("KEYSPACE").String("ks").b)
+		} else {
+			w.s.handleSchemaEvent([]frame{&schemaChangeKeyspace{keyspace: "ks", change: "UPDATED"}})
+		}
 	case "nodefail":
 		w.setTruth(st.Rows)
 		w.setDown(st.Addr, true)
@@ -851,6 +990,9 @@ func vfC16Run(sc *vfC16Scenario, out *vfNDJSON) (steps int, timeouts int, err er
 	if sc.C0 == "" {
 		sc.C0 = "a0"
 	}
+	if sc.Pol == "" {
+		sc.Pol = "rr"
+	}
 	norm := func(rows []vfC16Row) {
 		for i := range rows {
 			if rows[i].Peer == "" {
@@ -874,7 +1016,7 @@ func vfC16Run(sc *vfC16Scenario, out *vfNDJSON) (steps int, timeouts int, err er
 	}
 	fill := func(r *vfC16Rec, k int, st *vfC16Step) {
 		r.Sc, r.K, r.Mode, r.Filt = sc.N, k, sc.Mode, append([]string{}, sc.Filt...)
-		r.C0 = sc.C0
+		r.C0, r.Policy = sc.C0, sc.Pol
 		if st != nil {
 			r.Op, r.Rows, r.Fail, r.Evs, r.Addr = st.Op, st.Rows, st.Fail, st.Evs, st.Addr
 		}
@@ -898,7 +1040,7 @@ func vfC16Run(sc *vfC16Scenario, out *vfNDJSON) (steps int, timeouts int, err er
 		base := atomic.LoadInt64(&w.peersQ)
 		errs, pan := w.exec(st)
 		minWait := time.Duration(0)
-		if sc.Mode == "wire" && (st.Op == "events" || st.Op == "burst") {
+		if sc.Mode == "wire" && (st.Op == "events" || st.Op == "burst" || st.Op == "schema") {
 			minWait = 1150 * time.Millisecond // the event debouncer delivers 1 s after the last event
 			if st.Op == "burst" {
 				minWait = 2600 * time.Millisecond
@@ -942,7 +1084,7 @@ func vfC16Run(sc *vfC16Scenario, out *vfNDJSON) (steps int, timeouts int, err er
 		out.Write(rec)
 	}
 	if w.stalled {
-		out.Write(&vfC16Rec{Sc: sc.N, K: -1, Mode: sc.Mode, Op: "stalled", Rows: []vfC16Row{}, Fail: "none", Evs: []vfC16Ev{}, Filt: []string{}, C0: sc.C0,
+		out.Write(&vfC16Rec{Sc: sc.N, K: -1, Mode: sc.Mode, Op: "stalled", Rows: []vfC16Row{}, Fail: "none", Evs: []vfC16Ev{}, Filt: []string{}, C0: sc.C0, Policy: sc.Pol,
 			Hosts: []vfC16Host{}, ByID: []vfC16HA{}, ByAddr: []vfC16PA{}, HList: []string{}, Pool: []vfC16PA{}, Pol: []vfC16PA{}, Served: []string{}})
 	}
 	if w.mismatch {
